@@ -226,6 +226,69 @@ def run(res, tier):
     else:
         res.bad("R-CONST", "c = row sums of A", FWD, fn.get("line"), "stage times are not derived from the row sums of the tableau")
 
+    # ------------------------------------------------------------------ R-RK-FINAL
+    # the final update of every state part (positions via velocities, velocities, activations) must use the B-weighted sum
+    # of the stage derivatives: all derivative arguments of the mj_advance call come from the accumulator filled by the loop
+    # that scales with the tableau weights B
+    res.rule("R-RK-FINAL", "RK4's final mj_advance takes every derivative from the tableau-weighted accumulator", floor=3)
+    fn = uf.funcs["mj_RungeKutta"]
+    bvars = {x.get("n") for x in cir.walk(fn) if x.get("k") == "VarDecl" and x.get("init") and "RK4_B" in cir.text([c for c in cir.kids(x) if c][-1])}
+    if not bvars:
+        raise AnalysisError("mj_RungeKutta: no local bound to the RK4_B weights")
+    accs = set()
+    for c in cir.calls(fn):
+        a = cir.args(c)
+        if len(a) >= 3 and any(cir.base_var(x) in bvars for x in a[2:3]):
+            accs.add(cir.base_var(a[0]))
+    adv = [c for c in cir.calls(fn, "mj_advance")]
+    if len(accs) != 1 or len(adv) != 1:
+        raise AnalysisError(f"mj_RungeKutta: weighted accumulator / mj_advance call not identified ({accs}, {len(adv)})")
+    acc = next(iter(accs))
+    # the accumulator must not be rewritten between the B loop and the advance: it is only written by zero + the B-weighted adds
+    names = ("act_dot", "qacc", "qvel")
+    for pname, a in zip(names, cir.args(adv[0])[2:5]):
+        base = cir.base_var(a)
+        if base == acc:
+            res.ok("R-RK-FINAL", f"mj_advance:{pname}", {"arg": cir.text(a)})
+        else:
+            res.bad("R-RK-FINAL", f"mj_advance:{pname}", FWD, adv[0].get("line"),
+                    f"the final RK4 update passes `{cir.text(a)}` as {pname}; it must be the tableau-weighted sum held in `{acc}` "
+                    f"(otherwise that part of the state is advanced by a plain Euler step)")
+
+    # ------------------------------------------------------------------ R-DERIV-TERMS
+    # M - h*dF/dv: the derivative assembled for the implicit integrators must contain a term whenever the force contains it.
+    # The forward velocity stage calls mj_passive and mj_rne unconditionally and mj_fwdActuation is unconditional in the
+    # pipeline, so mjd_smooth_vel may guard its terms only by its own parameters, never by model options.
+    res.rule("R-DERIV-TERMS", "mjd_smooth_vel guards its derivative terms only by its own parameters (no option flag the force side lacks)",
+             floor=3)
+    ud = engine.unit("src/engine/engine_derivative.c")
+    sv = ud.funcs.get("mjd_smooth_vel")
+    if sv is None:
+        raise AnalysisError("mjd_smooth_vel not found")
+    from .. import pipeline as _pl
+    evs = _pl.Flattener(ud, inline=set()).flatten(sv, {})
+    pnames = {p.get("n") for p in cir.params(sv)}
+    terms = [e for e in evs if e[0] == "call" and e[1].startswith("mjd_") and e[1].endswith("_vel")]
+    if len(terms) < 3:
+        raise AnalysisError(f"mjd_smooth_vel: only {len(terms)} derivative term calls found")
+    fwd_guards = {}
+    for e in _pl.Flattener(uf, inline=set()).flatten(uf.funcs["mj_fwdVelocity"], {}):
+        if e[0] == "call":
+            fwd_guards[e[1]] = e[-1]
+    counterpart = {"mjd_passive_vel": "mj_passive", "mjd_rne_vel": "mj_rne", "mjd_actuator_vel": None}
+    for e in terms:
+        foreign = [a for a, _p in e[-1] if a not in pnames]
+        cp = counterpart.get(e[1])
+        allowed = {a for a, _p in fwd_guards.get(cp, ())} if cp else set()
+        extra = [a for a in foreign if a not in allowed]
+        if extra:
+            res.bad("R-DERIV-TERMS", e[1], "src/engine/engine_derivative.c", sv.get("line"),
+                    f"`{_pl.fmt(e)}`: the derivative term is skipped under {extra} although the corresponding force "
+                    f"({cp or 'mj_fwdActuation'}) is computed regardless: the implicit integrators then solve with a matrix that "
+                    f"misses this term")
+        else:
+            res.ok("R-DERIV-TERMS", e[1], {"guards": [a for a, _ in e[-1]]})
+
     # ------------------------------------------------------------------ R-WHO-WRITES act
     res.rule("R-WHO-WRITES", "d->act written only by the clamping update / stage copies / reset in the step closure", floor=4)
     allowed = {"mj_advance": "integration: clamping update and documented projections",
